@@ -14,6 +14,7 @@ Programs are `List UInt8` of length < 2^32 (a Go slice of ≥ 4 GiB would be tru
 import BytomModel.Model.Asm
 import BytomModel.Model.StdProgs
 import BytomModel.Lemmas.Asm
+import BytomModel.Lemmas.AsmAppend
 
 namespace BytomModel.Props.C09
 open BytomModel.Asm BytomModel.Lemmas.Asm BytomModel.Gen
@@ -96,6 +97,17 @@ theorem parseOp_total (p : Bytes) (pc : Nat) (hp : p.length ≤ maxInt32) (e : P
     have c2 : pc ≥ p.length := by omega
     simp only [hu, c1, c2, if_false, if_true] at h
     injection h with h; subst h; simp
+
+/-- **parse_append.** Parsing is compositional: when `a` and `b` both parse (and `a ++ b` is
+    within the program size bound), `a ++ b` parses to the concatenation of their instruction
+    lists — an instruction's decoding depends on nothing but its own bytes. -/
+theorem parse_append (a b : Bytes) (ia ib : List Inst) (hlen : (a ++ b).length ≤ maxInt32)
+    (ha : parseProgram a = .ok ia) (hb : parseProgram b = .ok ib) :
+    parseProgram (a ++ b) = .ok (ia ++ ib) := parseProgram_append a b ia ib hlen ha hb
+
+example : parseProgram ([0x76, 0xa9] ++ pushDataBytes [1, 2, 3]) =
+    .ok ([⟨0x76, 1, []⟩, ⟨0xa9, 1, []⟩] ++ [⟨0x03, 4, [1, 2, 3]⟩]) :=
+  parse_append _ _ _ _ (by decide) (by decide) (by decide)
 
 /-! ## PushDataBytes output parses back to the data -/
 
